@@ -653,7 +653,7 @@ def main():
             "obligations": max(obligations, 1), "discharged": discharged if obligations else 0,
             "checker_cmd": "lake build Utcp.Props.%s && lake env lean <#print axioms of every theorem> (cwd /verif/lean)" % prop,
             "trusted_base": ["Lean 4.33 kernel", "axioms: propext, Classical.choice, Quot.sound only (audited per theorem this run)",
-                             "tools/extract.py + tools/ctrans.py (constants and pure integer functions regenerated from /repo this run; translator validated differentially against the compiled C)",
+                             "tools/extract.py + tools/ctrans.py (constants and pure integer functions regenerated from /repo this run and, where they read differently from the definitions the theorems were written for, proved equal to them by generated theorems regen_*; translator and definitions validated differentially against the compiled C; see regeneration_notes for anything tied differentially only)",
                              "correspondence harness + generators (model and real code run on the same scenarios; outputs compared line by line)", "gcc 12, ASan/UBSan"],
             "theorems": names, "axioms": axioms,
             "evaluations": len(flat) * (3 if have_model else 2), "scenarios": len(flat), "distinct_nontrivial": nontrivial,
